@@ -112,7 +112,8 @@ def clang_data_images(csrc_path, target, wd, lang="c", extra=()):
     obj = csrc_path + "." + target + ".o"
     std = ["-x", "c++", "-std=c++14"] if lang == "cpp" else ["-std=gnu11"]
     rc, _, err = common.clang(std + [f"--target={clang_triple(target)}", "-c", "-O0", "-w", "-fno-common", "-fno-zero-initialized-in-bss",
-                                     "-fno-data-sections", "-o", obj, csrc_path] + list(extra), cwd=wd, timeout=600)
+                                     "-fno-data-sections", "-o", obj, csrc_path] + (["-msmall-data-limit=0"] if target.startswith("riscv") else [])
+                           + list(extra), cwd=wd, timeout=600)
     if rc != 0:
         return None, err[:1500]
     binp = obj + ".data.bin"
